@@ -367,7 +367,7 @@ def material_cases(draw, laws=("iso", "ti", "ortho", "aniso"), dims=(2, 3), allo
         n = 6 if dim == 3 else draw(st.sampled_from([3, 6]))
         case["ps"] = False
         case["ac"] = draw(aniso_case(n, shape))
-        case["voigt"] = draw(st.booleans())
+        case["voigt"] = draw(st.booleans()) if n == 3 else draw(st.integers(0, 3)) == 0
         case["axes"] = draw(axes_strategy(inplane=(n == 3)))
     else:
         case["ps"] = draw(st.booleans()) if dim == 2 else False
@@ -376,10 +376,17 @@ def material_cases(draw, laws=("iso", "ti", "ortho", "aniso"), dims=(2, 3), allo
     return case
 
 
+def still_known(rec, fid):
+    """True while finding `fid` is listed with status 'known' (findings/C11.json or KNOWN_FINDINGS.json).
+    Classes on which a known defect *raises* are skipped (and counted) only while that is the case; a
+    replay runs with an empty list, and a 'fixed' entry re-opens the class without editing this module."""
+    return any(e.get("id") == fid and e.get("status") == "known" for e in rec.known)
+
+
 class Mat:
     """everything the checks need, built from a case by the real constructors + the oracle inputs"""
 
-    def __init__(self, case, rec, axes=True):
+    def __init__(self, case, rec, keep_voigt6=False):
         self.case = case
         self.law = law = case["law"]
         self.dim = case["dim"]
@@ -391,17 +398,17 @@ class Mat:
         if law == "aniso":
             self.Ckm = aniso_km(case["ac"], self.shape)
             self.n = self.Ckm.shape[-1]
-            if self.n == 6 and self.voigt and not case.get("force"):
-                # finding C11-b lives in the `notation` sub-check; elsewhere 6x6 input is given in KM form
+            if self.n == 6 and self.voigt and not keep_voigt6 and still_known(rec, "C11-b"):
+                # finding C11-b is pinned by the `notation` sub-check; the other sub-checks skip the class
                 rec.label("excluded:aniso_6x6_voigt(C11-b)")
-                self.voigt = False
+                self.skip = "aniso_6x6_voigt"
             self.P = None
         else:
             self.P, self.halvings = materialize(law, case["pc"], self.shape)
-            if ti_gl_only(law, self.P) and not case.get("force"):
+            if ti_gl_only(law, self.P) and still_known(rec, "C11-c"):
                 rec.label("excluded:ti_only_Gl_array(C11-c)")
                 self.skip = "ti_gl_only"
-        if law != "iso" and abs_tol_rejects(self.a1, self.a2) and not case.get("force"):
+        if law != "iso" and abs_tol_rejects(self.a1, self.a2) and still_known(rec, "C11-d"):
             rec.label("excluded:axes_abs_tol(C11-d)")
             self.skip = "axes_abs_tol"
         self.sig = dict(law=law, dim=self.dim, ps=self.ps, het=["hom", "e", "ep"][len(self.shape)],
@@ -503,12 +510,12 @@ def check_reduction(case, rec):
     C2, S2 = np.asarray(law2.C), np.asarray(law2.S)
     C3, S3 = np.asarray(law3.C), np.asarray(law3.S)
     cond = cond_of(C3)
-    scale = amax(C3) * max(1.0, cond / 100)
+    scale = amax(C3) * max(1.0, cond / 10)
     Cpo = C3[..., IN[:, None], OUT[None, :]]
     if mat.ps:
         Cexp = schur_plane_stress(C3)
         rec.close(C2 - Cexp, scale, TOL, "plane_stress_C", f"{mat.law}: C2D vs Schur complement of C3D", **sig)
-        rec.close(S2 - sub_in(S3), amax(S3) * max(1.0, cond / 100), TOL, "plane_stress_S",
+        rec.close(S2 - sub_in(S3), amax(S3) * max(1.0, cond / 10), TOL, "plane_stress_S",
                   f"{mat.law}: S2D vs in-plane block of S3D", **sig)
         rec.nontrivial(amax(Cpo) > 1e-3 * amax(C3))
     else:
@@ -558,7 +565,7 @@ def check_frame(case, rec):
     C, S = np.asarray(law.C), np.asarray(law.S)
     Cexp, Sexp = mat.expected()
     cond = cond_of(Cexp)
-    kc = max(1.0, cond / 100)
+    kc = max(1.0, cond / 10)
     rec.close(C - Cexp, amax(Cexp) * kc, TOL, "C_equals_rotated_tensor",
               f"{mat.law} dim={mat.dim} ps={mat.ps} q={case['axes']['q']}", **sig)
     rec.close(S - Sexp, amax(Sexp) * kc, TOL, "S_equals_rotated_tensor",
@@ -587,14 +594,13 @@ def notation_cases(draw):
     n = 6 if dim == 3 else draw(st.sampled_from([3, 6]))
     shape = draw(shape_strategy())
     return dict(law="aniso", dim=dim, ps=False, shape=shape, ac=draw(aniso_case(n, shape)),
-                axes=draw(axes_strategy(inplane=(n == 3))), voigt=True, force=True,
+                axes=draw(axes_strategy(inplane=(n == 3))), voigt=True,
                 via=draw(st.sampled_from(["ctor", "Set_C"])))
 
 
 def check_notation(case, rec):
-    mat = Mat(case, rec)
-    if abs_tol_rejects(mat.a1, mat.a2):
-        rec.label("excluded:axes_abs_tol(C11-d)")
+    mat = Mat(case, rec, keep_voigt6=True)
+    if mat.skip:
         return
     n = mat.n
     sig = dict(mat.sig, notation="voigt", via=case["via"])
@@ -611,7 +617,7 @@ def check_notation(case, rec):
     CV, CK = np.asarray(lawV.C), np.asarray(lawK.C)
     SV, SK = np.asarray(lawV.S), np.asarray(lawK.S)
     Cexp, Sexp = mat.expected()
-    kc = max(1.0, cond_of(Cexp) / 100)
+    kc = max(1.0, cond_of(Cexp) / 10)
     sigK = dict(sig, notation="km")
     rec.close(CK - Cexp, amax(Cexp) * kc, TOL, "km_input_equals_tensor", f"n={n} dim={mat.dim}", **sigK)
     rec.close(SK - Sexp, amax(Sexp) * kc, TOL, "km_input_equals_tensor_S", f"n={n} dim={mat.dim}", **sigK)
@@ -659,7 +665,7 @@ def check_pmat(case, rec):
     A2 = np.array(A2).reshape(shape + (vdim,))
     sig = dict(vdim=vdim, het=["hom", "e", "ep"][len(shape)], axes="unit" if unit else "non_unit")
     rec.label(f"pmat:vdim{vdim}", "pmat_het:" + sig["het"], "pmat_axes:" + case["axes"][0]["kind"])
-    if not unit and not case.get("force"):
+    if not unit and still_known(rec, "C11-a"):
         # Get_Pmat multiplies by the norm (C11-a); its own perpendicularity assert then sees
         # |a1|^2 |a2|^2 cos: exclude the inputs on which this symptom *raises*
         n1 = np.linalg.norm(A1, axis=-1, keepdims=True)
